@@ -8,12 +8,16 @@ import coqlit as L
 
 ID = "C07"
 COQ_PROPERTY_FILE = "Properties/C07.v"
-COQ_DEPS = ["Common/ListX.v", "Common/ObsHash.v", "Generated/Tables.v", "Model/CellGeom.v", "Proofs/CellGeomProofs.v"]
+COQ_DEPS = ["Common/ListX.v", "Common/ObsHash.v", "Generated/Tables.v", "Model/CellGeom.v", "Proofs/CellGeomProofs.v",
+            "Proofs/CellGeomBridge.v"]
 COQ_IMPORTS = "From Mesa Require Import Model.CellGeom."
 COQ_CASE_TYPE = "case"
 COQ_RUN = "run_case"
 TABLE_CONSTRUCTS = ["moore_offsets_2d", "vn_offsets_2d", "hex_even_offsets", "hex_odd_offsets", "hex_selector",
-                    "cell_inner_cache", "cell_get_cache", "cell_nbhd_cached_property"]
+                    "cell_inner_cache", "cell_get_cache", "cell_nbhd_cached_property",
+                    # code-level T1 (harness/tables/cellgeom_code.py)
+                    "grid_connect_2d_code", "grid_connect_nd_code", "grid_moore_nd_construction", "grid_vn_nd_construction",
+                    "grid_dispatch_skeleton", "cell_connect_skeleton", "cell_nbhd_conditions_code", "cell_nbhd_skeleton"]
 RULE = ("histories = one cell space (OrthogonalMooreGrid / OrthogonalVonNeumannGrid with 1-4 axes of sizes 1-4(5), "
         "HexGrid incl. sizes 1 and 2, tori (hex tori only with even size along the parity axis), Network over a simple "
         "graph with isolated nodes, VoronoiGrid over integer-lattice points in general position) + `build` (read every "
@@ -526,16 +530,19 @@ def run_impl(case):
     import signal
 
     def _alarm(signum, frame):
-        raise TimeoutError("construction did not finish within 20 s")
+        raise TimeoutError("construction used more than 30 s of CPU time")
+
+    import mesa.discrete_space  # noqa: F401  (imports are not part of the construction being timed)
 
     try:
-        old_handler = signal.signal(signal.SIGALRM, _alarm)
-        signal.setitimer(signal.ITIMER_REAL, 20)
+        # CPU time of this process, not wall-clock: a loaded machine must not produce a false alarm
+        old_handler = signal.signal(signal.SIGPROF, _alarm)
+        signal.setitimer(signal.ITIMER_PROF, 30)
         try:
             space = _make_space(sp)
         finally:
-            signal.setitimer(signal.ITIMER_REAL, 0)
-            signal.signal(signal.SIGALRM, old_handler)
+            signal.setitimer(signal.ITIMER_PROF, 0)
+            signal.signal(signal.SIGPROF, old_handler)
     except Exception as e:  # noqa: BLE001  the space cannot even be built: every operation fails
         n = len(case["ops"])
         return {"obs": [[-1, 99]] * n, "ops_for_model": [list(o) for o in case["ops"]], "model": False,
